@@ -1,4 +1,5 @@
 import OapiVerif.Proofs.Paths
+import OapiVerif.Proofs.Combine
 /-!
 C03 — Every operation is routed to its own handler with its own path variables.
 
@@ -264,3 +265,77 @@ example : (route [⟨0, [.static [97], .var [120]], 1⟩, ⟨0, [.static [97], .
     = some 2 := by decide
 
 end OapiVerif.Paths
+
+namespace OapiVerif.Props.C03
+open OapiVerif.Combine
+
+/-! ### path-item and operation declarations of one parameter (`CombineOperationParameters`, Model/Combine.lean) -/
+
+/-- **The operation's declaration wins.** When the two lists combine, the result is the operation's declarations
+as given, followed by the path item's declarations of the (location, name) pairs the operation does not declare, in
+order; and no (location, name) occurs twice. -/
+theorem C03_operation_declaration_wins (pathItem operation combined : List Decl)
+    (h : combine pathItem operation = .ok combined) :
+    combined = operation ++ pathItem.filter (fun d => !hasKey operation d.key) ∧ (combined.map Decl.key).Nodup :=
+  combine_ok pathItem operation combined h
+
+/-- In particular a declaration of the path item that the operation re-declares is not in the result. -/
+theorem C03_overridden_declaration_absent (pathItem operation combined : List Decl)
+    (h : combine pathItem operation = .ok combined) (d : Decl) (hd : d ∈ pathItem) (ho : hasKey operation d.key = true)
+    (hnot : d ∉ operation) : d ∉ combined := by
+  rw [(combine_ok pathItem operation combined h).1]
+  simp [hnot, ho]
+
+/-- Declarations that repeat nothing always combine (the function fails only on a repeated (location, name) inside one
+of the two lists). -/
+theorem C03_combine_total (pathItem operation : List Decl) (ho : (operation.map Decl.key).Nodup)
+    (hp : ((pathItem.filter (fun d => !hasKey operation d.key)).map Decl.key).Nodup) :
+    ∃ combined, combine pathItem operation = .ok combined := by
+  unfold combine
+  rw [locals_nodup_ok operation [] ho (by intro d _; rfl)]
+  simp only [List.reverse_nil, List.nil_append]
+  suffices ∀ acc, (acc.map Decl.key).Nodup →
+      (∀ d ∈ pathItem.filter (fun d => !hasKey operation d.key), hasKey acc d.key = false) →
+      ((pathItem.filter (fun d => !hasKey operation d.key)).map Decl.key).Nodup →
+      ∃ g, globals operation pathItem acc = .ok g by
+    obtain ⟨g, hg⟩ := this [] (by simp) (by intro d _; rfl) hp
+    exact ⟨operation ++ g, by simp [hg]⟩
+  clear hp
+  induction pathItem with
+  | nil => intro acc _ _ _; exact ⟨acc.reverse, rfl⟩
+  | cons d rest ih =>
+    intro acc hacc hdis hnd
+    unfold globals
+    by_cases hk : hasKey operation d.key = true
+    · simp only [hk, if_true]
+      have hf : (d :: rest).filter (fun d => !hasKey operation d.key) = rest.filter (fun d => !hasKey operation d.key) := by
+        simp [List.filter_cons, hk]
+      rw [hf] at hdis hnd
+      exact ih acc hacc hdis hnd
+    · have hk' : hasKey operation d.key = false := by simpa using hk
+      have hf : (d :: rest).filter (fun d => !hasKey operation d.key) = d :: rest.filter (fun d => !hasKey operation d.key) := by
+        simp [List.filter_cons, hk']
+      rw [hf] at hdis hnd
+      have hd := hdis d (by simp)
+      simp only [hk', hd, Bool.false_eq_true, if_false]
+      have hnd' : d.key ∉ (rest.filter (fun d => !hasKey operation d.key)).map Decl.key ∧
+          ((rest.filter (fun d => !hasKey operation d.key)).map Decl.key).Nodup := by
+        simpa only [List.map_cons, List.nodup_cons] using hnd
+      refine ih (d :: acc) ?_ ?_ hnd'.2
+      · simp only [List.map_cons, List.nodup_cons]
+        refine ⟨?_, hacc⟩
+        intro hmem
+        obtain ⟨e, he, hke⟩ := List.mem_map.mp hmem
+        have : hasKey acc d.key = true := (hasKey_iff acc d.key).mpr ⟨e, he, hke⟩
+        simp [this] at hd
+      · intro e he
+        have h1 := hdis e (List.mem_cons_of_mem _ he)
+        have hne : d.key ≠ e.key := fun heq => hnd'.1 (List.mem_map.mpr ⟨e, he, heq.symm⟩)
+        simp only [hasKey, List.any_cons, Bool.or_eq_false_iff]
+        exact ⟨by simpa using hne, by simpa [hasKey] using h1⟩
+
+/-- Non-vacuity: the path item declares `id` (path) and `limit` (query), the operation re-declares `limit` and adds a header. -/
+example : combine [⟨0, [105, 100], 1⟩, ⟨1, [108], 2⟩] [⟨1, [108], 7⟩, ⟨2, [120], 8⟩] =
+    .ok [⟨1, [108], 7⟩, ⟨2, [120], 8⟩, ⟨0, [105, 100], 1⟩] := by rfl
+
+end OapiVerif.Props.C03
